@@ -308,6 +308,14 @@ class MuChannel:
         """
         num_rx, num_tx = self._su_siso_channels.shape
 
+        if pathloss_matrix is None:
+            # Disable the path loss of every link
+            self._pathloss_matrix = None
+            for rx in range(num_rx):
+                for tx in range(num_tx):
+                    self._su_siso_channels[rx, tx].set_pathloss(None)
+            return
+
         # Validate the whole matrix before changing anything
         pathloss_array = np.asarray(pathloss_matrix)
         if pathloss_array.shape != (num_rx, num_tx):
